@@ -145,16 +145,29 @@ def check_c05(res, tier, replay):
             for _ in range(3 if tier == 'quick' else 20):
                 o, regime = gen_ohlcv(rng, rng.randrange(12, 90), rng.choice(['walk', 'wide', 'zigzag', 'down', 'up', 'ties']))
                 wcases.append((wname, [], [], o, regime))
+        # garbage closes (zero, negative) are still snapshots: decorators and compounds must keep Hold through the warm-up and count right
+        for wname in WRAPPED:
+            for _ in range(2 if tier == 'quick' else 10):
+                o, regime = gen_ohlcv(rng, rng.randrange(12, 60), rng.choice(['walk', 'down', 'zigzag']))
+                for _k in range(rng.randrange(1, 4)):
+                    o['c'][rng.randrange(len(o['c']))] = rng.choice([0.0, -1.0, -250.0])
+                wcases.append((wname, [], [], o, regime + '+nonpositive-close'))
         wl = ['w%d %s' % (i, strat_line(c[0], c[1], c[2], c[3])) for i, c in enumerate(wcases)]
         wg = vlib.run_go(wl)
         for i, c in enumerate(wcases):
             g = parse_strat(wg.get('w%d' % i, 'missing'))
             n = len(c[3]['c'])
             wrapped_n += 1
-            if g['status'] != 'ok' or len(g['actions']) != n or any(a not in (-1, 0, 1) for a in g['actions']):
+            # a decorator inherits the warm-up of the strategy it wraps: Hold until it has elapsed
+            wrap, inner = c[0].split(':')
+            warm_ok = True
+            if wrap in ('Inverse', 'NoLoss', 'StopLoss') and g['status'] == 'ok':
+                w_in = strat_idle(inner, DEFAULT_NS.get(inner, []))
+                warm_ok = all(a == 0 for a in g['actions'][:min(w_in, n)])
+            if g['status'] != 'ok' or len(g['actions']) != n or any(a not in (-1, 0, 1) for a in g['actions']) or not warm_ok:
                 wrapped_bad += 1
                 res.violation({'case': case_json(c), 'go_output': wg.get('w%d' % i, 'missing')[:300], 'n': n,
-                               'oracle': 'a compound/decorated strategy over base strategies emits exactly one action per snapshot (n >= every warm-up)'})
+                               'oracle': 'a compound/decorated strategy over base strategies emits exactly one action per snapshot (n >= every warm-up); a decorator holds through the warm-up of the strategy it wraps'})
     bad = wrapped_bad
     cells = set()
     known = collections.defaultdict(int)
@@ -261,6 +274,12 @@ def check_c06(res, tier, replay):
                 n = strat_idle(name, ns) + rng.randrange(15, 90)
                 o, regime = gen_ohlcv(rng, n, 'wide' if j % 2 else None)
                 cases.append((name, ns, fs, o, regime))
+            # an up-trend with sharp pull-backs: the regime in which oversold/overbought and trend conditions coincide
+            for j in range(3 if tier == 'quick' else 12):
+                ns, fs = sc['cfg'](rng, 40 if j % 2 else 12)
+                ns, fs = list(ns), list(fs)
+                o, regime = gen_ohlcv(rng, strat_idle(name, ns) + rng.randrange(60, 160), 'dips')
+                cases.append((name, ns, fs, o, regime))
     lines, go, model = run_strats(cases)
     mism, comps = strat_correspondence(res, cases, lines, go, model)
     if comps and not replay:
@@ -287,6 +306,33 @@ def check_c06(res, tier, replay):
         w = strat_idle(name, ns)
         problem = None
         for pos in range(w, min(n, len(g['actions']))):
+            if sc.get('hist'):
+                # window rule: needs the indicator values of the last `depth` positions, all inside the strategy's own run
+                depth = sc['hist'](ns)
+                if pos - (depth - 1) < w:
+                    continue
+
+                def at(k, pos=pos):
+                    return [s[pos - k - iw] for (iw, s) in vals]
+                if any(pos - k - iw < 0 or pos - k - iw >= len(s) for k in range(depth) for (iw, s) in vals):
+                    continue
+                flat = [v for k in range(depth) for v in at(k)]
+                if any(v != v or abs(v) == math.inf for v in flat):
+                    exempt += 1
+                    continue
+                snap = {k: o[k][pos] for k in o}
+                margin = sc['margin'](at, snap, fs, ns)
+                if margin <= 1e-9 * max(1e-300, max(abs(v) for v in flat + [snap['c']])):
+                    exempt += 1
+                    continue
+                want = sc['rule'](at, snap, fs, ns)
+                checked += 1
+                decisions[want] += 1
+                per_strategy[name][want] += 1
+                if want != g['actions'][pos] and problem is None:
+                    problem = {'position': pos, 'expected': want, 'go_action': g['actions'][pos],
+                               'indicator_values_oldest_first': [at(k) for k in range(depth - 1, -1, -1)], 'snapshot': snap}
+                continue
             cur, prev, ok = [], [], True
             for (iw, s) in vals:
                 j = pos - iw
@@ -513,6 +559,20 @@ def gen_c07(rng, tier):
         for _d in range(rng.choice([0, 0, 1, 1, 2, 3])):
             prog += ',' + rng.choice(['Inverse', 'NoLoss', 'StopLoss:%s' % f2h(rng.choice(PCTS))])
         cases.append((prog, words, closes))
+    # Stop-Loss / No-Loss exactly at their thresholds: a Buy at close c, later closes equal to c*(1 - pct) as computed in
+    # binary64 (the documented threshold), one ulp below and above it, and equal to c itself (No-Loss tie)
+    for _ in range(60 if tier == 'quick' else 1500):
+        pct = rng.choice(PCTS + [0.08, 0.02, 0.03, 0.07, 0.15])
+        c0 = rng.choice([28.0, 20.08, 10.0, 33.33, 101.25, 7.77, 250.5]) if rng.random() < 0.5 else round(rng.uniform(1, 300), 2)
+        thr = c0 * (1 - pct)
+        tail = [math.nextafter(thr, math.inf), thr, math.nextafter(thr, -math.inf), c0, math.nextafter(c0, math.inf)]
+        rng.shuffle(tail)
+        pre = [round(rng.uniform(1, 300), 2) for _ in range(rng.randrange(0, 3))]
+        mid = [c0 * rng.choice([1.0, 1.01, 0.999, 1.2]) for _ in range(rng.randrange(0, 3))]
+        closes = pre + [c0] + mid + tail[:rng.randrange(1, 6)]
+        word = [H] * len(pre) + [B] + [rng.choice([H, H, B]) for _ in range(len(closes) - len(pre) - 1)]
+        for prog in ('w:0,StopLoss:%s' % f2h(pct), 'w:0,NoLoss', 'w:0,NoLoss,StopLoss:%s' % f2h(pct)):
+            cases.append((prog, [word], closes))
     return cases
 
 
@@ -615,6 +675,20 @@ def check_c08(res, tier, replay):
         res.violation({'case': {'word': w, 'values': v}, 'failed': what, 'detail': detail,
                        'oracle': 'all-in/all-out portfolio semantics evaluated on the Go output'})
 
+    # Outcome is generic over the element type of the value stream: integer-typed values must give what the same values give as float64
+    ilines = []
+    for j in range(80 if tier == 'quick' else 2000):
+        n = rng.randrange(0, 40)
+        vals = [rng.choice([rng.randrange(1, 30), rng.randrange(1, 3000), 1000, 1500]) for _ in range(n)]
+        ilines.append('o%d OUTINT %s %s' % (j, il(gen_word(rng, n if rng.random() < 0.8 else rng.randrange(0, 40))), il(vals)))
+    igo = vlib.run_go(ilines)
+    for ln in ilines:
+        g = igo.get(ln.split(' ')[0], 'missing')
+        checks['integer_element_types'] += 1
+        if not g.startswith('ok'):
+            bad += 1
+            res.violation({'lines': [ln.split(' ', 1)[1]], 'go_output': g[:300],
+                           'oracle': 'Outcome over int/int32/int64/float32 values = Outcome over the same values as float64 (bit for bit)'})
     for gi, (w, v) in enumerate(groups):
         r = [parse_tree(go.get(lines[gi * len(progs) + k].split(' ')[0], 'missing')) for k in range(len(progs))]
         if any(x is None for x in r):
@@ -675,6 +749,9 @@ def check_c08(res, tier, replay):
 
 
 # ------------------------------------------------------------------------------------------ C14
+# configurations the harness gives the members of wrapped strategies (harness/reports.go defaultNs)
+DEFAULT_NS = {'Macd': [3, 5, 2], 'Rsi': [4], 'Bop': [], 'BuyAndHold': [], 'Trix': [2], 'Vwma': [3], 'GoldenCross': [2, 5],
+              'Kdj': [3, 2, 2], 'Smma': [2, 4], 'Alligator': [4, 3, 2]}
 WRAPPED = ['And:Macd+Rsi', 'Or:Macd+Rsi', 'Majority:Macd+Rsi+Trix', 'Split:Macd+Rsi', 'Inverse:Macd', 'NoLoss:Macd',
            'StopLoss:Macd', 'And:Bop+BuyAndHold', 'Or:Vwma+GoldenCross', 'Majority:Kdj+Bop+Rsi', 'NoLoss:Rsi', 'Inverse:Kdj']
 
@@ -795,8 +872,12 @@ def check_c14(res, tier, replay):
                                 return False
                         return hit >= 2
                     ok0 = any(matches(w, s, 0) for (w, s) in vals_ind)
+                    # a (nearly) constant or undefined column matches itself at any shift: nothing can be said about it
+                    informative = len({round(v, 9) for v in got if v == v and abs(v) != math.inf}) >= 4
                     if ok0:
                         stats['indicator_columns_aligned'] += 1
+                    elif not informative:
+                        stats['indicator_columns_unmatched'] += 1
                     else:
                         off = [sh for sh in (-2, -1, 1, 2) if any(matches(w, s, sh) for (w, s) in vals_ind)]
                         if off:
